@@ -222,7 +222,11 @@ def r5(ctx):
 def r6(ctx):
     from . import C05
     from ..core import include
-    include(ctx, C05, [C05.r7], 'C20-R6')
+    from . import C07
+    # "success implies the output holds every record": the job list covers every contig with reads exactly once (C05-R1/R2), every job BAM
+    # reaches the merge (C05-R7), and the molecule iterator emits every fragment exactly once (C07-R2)
+    include(ctx, C05, [C05.r1, C05.r2, C05.r7], 'C20-R6')
+    include(ctx, C07, [C07.r2], 'C20-R6')
     g = ctx.fn(TAGGING, 'run_tagging_tasks')
     hs = [h for t in walk_no_nested(g) if isinstance(t, ast.Try) for h in t.handlers
           if any(isinstance(c, ast.Call) and last_name(dotted(c.func) or '') == 'run_tagging_task' for b in t.body for c in ast.walk(b))]
